@@ -126,6 +126,10 @@ func VerifH_conc_registration() {
 	defer vfCloseBackends()
 	vfRaceDetect()
 	vfPreemptions(vfBound(2, 3))
+	if vfBool() {
+		vfFailedRegisterConn()
+		return
+	}
 	scenario := vfChoice(3)
 	fa, fb := vfFakeSvc(vfSvcA), vfFakeSvc(vfSvcB)
 	rec := &fakeCodec{name: "fake"}
@@ -202,4 +206,43 @@ func VerifH_conc_registration() {
 	vfCheck(merr == nil && mB != nil && mB.name == "/vf.B/M2", "a live method's route does not dispatch after concurrent registration")
 	mA, _, aerr := st.match("/v1/a2/q", "GET")
 	vfCheck(aerr == nil && mA != nil && mA.name == "/vf.A/M2", "an untouched service's route was lost")
+}
+
+// vfFailedRegisterConn (C12, sequential): a RegisterConn that fails half-way - the backend exposes a
+// good service and one whose HTTP rule cannot be bound, in either processing order - must change
+// nothing: the published snapshot stays pointer-identical, the connection is not recorded, the
+// good service of that backend is not served, earlier registrations keep working.
+func vfFailedRegisterConn() {
+	vfMapOrder(vfChoice(2)) // addConnHandler ranges over a map of files
+	fa := vfFakeSvc(vfSvcA)
+	mux, err := NewMux(FilesOption(vfRegistry(fa)))
+	if err != nil {
+		vfFail("NewMux failed")
+	}
+	sdA := &grpc.ServiceDesc{ServiceName: "vf.A", Methods: []grpc.MethodDesc{{MethodName: "M1", Handler: vfUnaryHandler}, {MethodName: "M2", Handler: vfUnaryHandler}}}
+	if err := mux.registerService(sdA, &vfServer{}); err != nil {
+		vfFail("registerService(A) failed")
+	}
+	ctx := context.Background()
+	good := vfBackendConn([]vfSvcSpec{vfSvcB})
+	if vfBool() {
+		// the failing connection was registered successfully before (with a good service set): the
+		// failed re-registration must not drop what it served
+		if err := mux.RegisterConn(ctx, good); err != nil {
+			vfFail("RegisterConn(good) failed: " + err.Error())
+		}
+		vfCover("failed-after-earlier-success")
+	}
+	before := mux.loadState()
+	fp := vfFingerprint(before)
+	bad := vfBackendConn([]vfSvcSpec{vfSvcB, vfSvcBad})
+	rerr := mux.RegisterConn(ctx, bad)
+	vfCheck(rerr != nil, "a backend exposing an unbindable rule was registered without error")
+	after := mux.loadState()
+	vfCheck(after == before, "a failed RegisterConn published a new routing state")
+	vfCheck(vfFingerprint(after) == fp, "a failed RegisterConn changed the routing state")
+	vfCheck(!mux.DropConn(ctx, bad), "a connection whose registration failed is recorded")
+	mA, _, aerr := mux.loadState().match("/v1/xx/yy", "GET")
+	vfCheck(aerr == nil && mA != nil && mA.name == "/vf.A/M1", "an earlier registration stopped working after a failed RegisterConn")
+	vfCover("failed-registerconn")
 }
